@@ -665,6 +665,19 @@ def attrNamesNodup : List Attr → Bool
   | [] => true
   | a :: as => !(as.map (·.name)).contains a.name && attrNamesNodup as
 
+/-- What identifies an attribute for "no attribute list contains two attributes with the same
+qualified name": the *expanded* name (namespace, local name) — the prefix is only spelling, and it is
+the pair both tree builders de-duplicate by (`check_duplicate_attr` in xml5ever) — except that in
+no namespace the prefix is kept: an attribute whose prefix could not be resolved (`a:x` with `a`
+unbound) is lexically a different name from `x`. -/
+def attrKey (a : Attr) : Option Str × Str × Str :=
+  if a.name.ns = [] then (a.name.pfx, [], a.name.loc) else (none, a.name.ns, a.name.loc)
+
+/-- no two attributes of the list have the same `attrKey` -/
+def attrKeysNodup : List Attr → Bool
+  | [] => true
+  | a :: as => !(as.map attrKey).contains (attrKey a) && attrKeysNodup as
+
 /-- contract on the `NodeOrText` argument of an insertion under `newParent`: a node must be one the
 builder created (`create_element`/`create_comment`/`create_pi`), and must not be `newParent` or one
 of its ancestors ("no node is ever inserted under itself or one of its descendants") -/
@@ -689,14 +702,14 @@ call (`markup5ever/interface/tree_builder.rs`; the statement of property C05):
 * no node is inserted under itself or one of its descendants (also for `reparent_children`);
 * the reference sibling of `append_before_sibling` has a parent and is not a text node;
 * a doctype is appended at most once and before any element;
-* no attribute list contains two attributes with the same qualified name;
+* no attribute list contains two attributes with the same qualified name (`attrKey`: expanded name);
 * every id names a node of this sink; parents are documents/elements, inserted nodes are
   elements/comments/processing instructions (the only handles a builder can hold). -/
 def contractOk (d : Dom) : SinkOp → Bool
   | .parseError _ => true
   | .getDocument => true
   | .elemName t => d.isElement t
-  | .createElement _ attrs _ => attrNamesNodup attrs
+  | .createElement _ attrs _ => attrKeysNodup attrs
   | .createComment _ => true
   | .createPi _ _ => true
   | .append p c => contractAppend d p c
@@ -712,7 +725,7 @@ def contractOk (d : Dom) : SinkOp → Bool
   | .sameNode x y => x < d.size && y < d.size
   | .setQuirksMode _ => true
   | .appendBeforeSibling s c => contractAppendBeforeSibling d s c
-  | .addAttrsIfMissing t attrs => d.isElement t && attrNamesNodup attrs
+  | .addAttrsIfMissing t attrs => d.isElement t && attrKeysNodup attrs
   | .associateWithForm t f n p =>
       d.isElement t && d.isElement f && d.isElement n && (match p with | some q => d.isElement q | none => true)
   | .removeFromParent t => t < d.size
@@ -720,7 +733,7 @@ def contractOk (d : Dom) : SinkOp → Bool
   | .isMathmlAnnotationXmlIntegrationPoint t => d.isElement t
   | .setCurrentLine _ => true
   | .allowDeclarativeShadowRoots p => d.isContainer p
-  | .attachDeclarativeShadow l t attrs => d.isElement l && d.isElement t && attrNamesNodup attrs
+  | .attachDeclarativeShadow l t attrs => d.isElement l && d.isElement t && attrKeysNodup attrs
   | .maybeCloneAnOptionIntoSelectedcontent o => d.localNameOf o == some sOption
 
 end Dom
